@@ -62,7 +62,7 @@ def gen(d, tier):
     if d.chance(1, 4):
         # handler-triggered events (at most 2 trigger steps in the table, ring capacity 8, eager io): what is triggered is a
         # function of the line; only the position of the event units among the command units depends on timing
-        ev = S.mk_cmd(b"#E", "", [S.mk_var(S.INT, 1, S.RO, b"\x05")])   # stateless: every accepted event prints #E=5
+        ev = S.mk_cmd(b"~EV", "", [S.mk_var(S.INT, 1, S.RO, b"\x05")])   # stateless: every accepted event prints #E=5
         s["groups"][-1]["cmds"].append(ev)
         ei = len(S.all_cmds(s)) - 1
         ntrig = 0
@@ -86,8 +86,8 @@ def gen(d, tier):
 def producers(out):
     from ..trace import split_units
     units, rest = split_units(out)
-    cmd = [u for u in units if not u[1].startswith(b"#")]
-    ev = [u[1] for u in units if u[1].startswith(b"#")]
+    cmd = [u for u in units if not u[1].startswith(b"~EV")]
+    ev = [u[1] for u in units if u[1].startswith(b"~EV")]
     return cmd, ev, rest
 
 
